@@ -21,7 +21,7 @@ def disp_columns(portf):
 # -------------------------------------------------------------------------------------------------
 # C01
 # -------------------------------------------------------------------------------------------------
-def mon_balance_output(case, portf, out, clause='balance.output'):
+def mon_balance_output(case, portf, out, clause='balance.output', skip_nodes=None):
     """dispatch table: per node and step the columns of the node's assets sum to zero."""
     disp = out.get('dispatch')
     if disp is None:
@@ -40,6 +40,8 @@ def mon_balance_output(case, portf, out, clause='balance.output'):
     nontrivial = False
     worst = (0., None)
     for node in portf.nodes:
+        if skip_nodes and node in skip_nodes:
+            continue          # (declared as not balanced inside the portfolio)
         cs = list(dict.fromkeys(cols[(a.name, n.name)] for a in portf.assets for n in a.nodes if n.name == node))      # (an asset may list a node twice: one column)
         if not cs:
             continue
